@@ -53,6 +53,8 @@ func (h *Hist) Get(k, v int) {
 	r := dv.Get(h.URL(v, fmt.Sprintf("key/k%d", k)))
 	ob := "ORead ObsErr"
 	switch {
+	case r.Status == 200 && len(r.Body) == 0:
+		ob = "ORead (ObsVal 0 None)" // the empty value (value id 0, see PutEmpty)
 	case r.Status == 200:
 		x, err := strconv.Atoi(string(r.Body))
 		if err == nil {
@@ -75,6 +77,13 @@ func (h *Hist) Put(k, v int) {
 	h.NextX++
 	r := dv.Post(h.URL(v, fmt.Sprintf("key/k%d", k)), []byte(strconv.Itoa(h.NextX)))
 	h.record(Hop{Op: "put", K: k, V: v, X: h.NextX}, acc(r.Status == 200))
+}
+
+// PutEmpty posts an empty body: the empty value is a value.  It is value id 0 of the model
+// (the counter NextX starts at 1, so no other write carries it).
+func (h *Hist) PutEmpty(k, v int) {
+	r := dv.Post(h.URL(v, fmt.Sprintf("key/k%d", k)), []byte{})
+	h.record(Hop{Op: "put", K: k, V: v, X: 0, How: "empty"}, acc(r.Status == 200))
 }
 
 // batchWrite performs one put (x > 0) or delete through the storage engine's batch path
@@ -270,6 +279,10 @@ func (h *Hist) Replay(ops []Hop) {
 		}
 		switch o.Op {
 		case "put":
+			if o.How == "empty" {
+				h.PutEmpty(o.K, o.V)
+				continue
+			}
 			h.NextX = o.X - 1
 			if o.How == "batch" {
 				h.BatchPut(o.K, o.V)
@@ -309,6 +322,8 @@ func (h *Hist) Random(nops, nkeys, maxNodes int) {
 				h.BatchSeq(rng.Intn(nkeys), open[rng.Intn(len(open))], seq)
 			} else if !h.NoBatch && rng.Chance(0.3) {
 				h.BatchPut(rng.Intn(nkeys), open[rng.Intn(len(open))])
+			} else if rng.Chance(0.12) {
+				h.PutEmpty(rng.Intn(nkeys), open[rng.Intn(len(open))])
 			} else {
 				h.Put(rng.Intn(nkeys), open[rng.Intn(len(open))])
 			}
@@ -388,9 +403,21 @@ func (h *Hist) RangeObs(inst string, v int) string {
 	if r.Status != 200 {
 		return fmt.Sprintf("(%d, None)", v)
 	}
-	var m map[string]int
-	if err := json.Unmarshal(r.Body, &m); err != nil {
+	var raw map[string]json.RawMessage
+	if err := json.Unmarshal(r.Body, &raw); err != nil {
 		return fmt.Sprintf("(%d, None)", v)
+	}
+	m := map[string]int{}
+	for name, val := range raw {
+		if string(val) == "{}" { // how the JSON form renders the empty value (value id 0)
+			m[name] = 0
+			continue
+		}
+		x, err := strconv.Atoi(string(val))
+		if err != nil {
+			return fmt.Sprintf("(%d, None)", v)
+		}
+		m[name] = x
 	}
 	var ks []int
 	for name := range m {
@@ -421,6 +448,8 @@ func (h *Hist) RangeSweep(inst string) string {
 func (h *Hist) ReadObs(inst string, k, v int) string {
 	r := dv.Get("/api/node/" + h.UUIDs[v-1] + "/" + inst + fmt.Sprintf("/key/k%d", k))
 	switch {
+	case r.Status == 200 && len(r.Body) == 0:
+		return "(ObsVal 0 None)"
 	case r.Status == 200:
 		if x, err := strconv.Atoi(string(r.Body)); err == nil {
 			return fmt.Sprintf("(ObsVal %d None)", x)
